@@ -48,7 +48,9 @@ func (p *c15lProc) OnEmit(context.Context, *Record) error {
 func (p *c15lProc) Shutdown(context.Context) error   { p.shuts++; return nil }
 func (p *c15lProc) ForceFlush(context.Context) error { p.flushes++; return nil }
 
-var c15lOps = []string{"EmitNew", "EmitOld", "Flush", "Shutdown", "ShutdownC"}
+// EmitOld: logger obtained before everything else; EmitNew: lp.Logger("new") now; EmitReget:
+// lp.Logger("old") asked for again now (a scope the provider has handed out before)
+var c15lOps = []string{"EmitNew", "EmitOld", "EmitReget", "Flush", "Shutdown", "ShutdownC"}
 var c15lVariants = []string{"rec", "simple(E)", "simple(nil)", "batch(E)", "batch(nil)"}
 
 func c15lSeq(variant string, ops []string) func(x *sched.Exec) {
@@ -83,10 +85,15 @@ func c15lSeq(variant string, ops []string) func(x *sched.Exec) {
 		for i, op := range ops {
 			e0, x0 := rec.emits, exp.exported
 			switch op {
-			case "EmitNew", "EmitOld":
+			case "EmitNew", "EmitOld", "EmitReget":
 				l := old
 				if op == "EmitNew" {
 					l = lp.Logger("new")
+				} else if op == "EmitReget" {
+					l = lp.Logger("old")
+				}
+				if shutOK && op != "EmitOld" && l.Enabled(context.Background(), log.EnabledParameters{}) {
+					x.Fail("C15|logger-handed-out-after-shutdown-is-not-a-no-op|logs", "%s: a logger obtained from the provider after Shutdown had returned nil reports Enabled (%s)", op, where(i))
 				}
 				var r log.Record
 				r.SetBody(log.StringValue("b"))
